@@ -7,6 +7,8 @@ MC = "aiomysensors.transport.mqtt.MQTTClient."
 TR = TObj("MQTTTransport")
 CL = TObj("MQTTClient")
 QG = ["ghost.qlen", "ghost.qhead", "ghost.qat"]
+# class invariant of the transport, established by __init__: its receive queue is unbounded (put_nowait cannot raise QueueFull)
+Q_UNBOUNDED = H("wf/queue-unbounded", "g('ghost.qmax') <= 0")
 PG = ["ghost.plen", "ghost.ptopic", "ghost.ppayload", "ghost.pqos"]
 SG = ["ghost.slen", "ghost.stopic", "ghost.sqos"]
 SUFFIX = "dec(n) + '/' + dec(c) + '/' + dec(k) + '/' + dec(a) + '/' + dec(t)"
@@ -96,7 +98,7 @@ def disconnect_contract():
 
 def handle_incoming_contract():
     ct = Contract(MC + "_handle_incoming", params={"self": CL},
-                  requires=[H("connected", "not (self._client is None)")],
+                  requires=[H("connected", "not (self._client is None)"), Q_UNBOUNDED],
                   modifies=QG,
                   ensures=[P("C18/receive-task-never-silent", "g('ghost.qlen') == old(g('ghost.qlen')) + 1 and "
                                                               "g('ghost.qat', old(g('ghost.qlen'))).message_type == 0 and "
@@ -107,7 +109,7 @@ def handle_incoming_contract():
 
 
 def receive_contract():
-    return Contract(MT + "_receive", params={"self": CL, "topic": TStr, "payload": TStr}, modifies=QG,
+    return Contract(MT + "_receive", params={"self": CL, "topic": TStr, "payload": TStr}, modifies=QG, requires=[Q_UNBOUNDED],
                     ensures=[P("C18/fifo-once", "g('ghost.qlen') == old(g('ghost.qlen')) + 1 and g('ghost.qhead') == old(g('ghost.qhead')) and "
                                                 "g('ghost.qat', old(g('ghost.qlen'))).message_type == 1")],
                     raises={}, check_wf=False)
@@ -128,6 +130,14 @@ def read_contract():
     return ct
 
 
+def init_contract(qual, cls):
+    params = {"self": cls, "in_prefix": TStr, "out_prefix": TStr}
+    if cls is CL:
+        params.update({"host": TStr, "port": TInt})
+    return Contract(qual + "__init__", params=params, modifies=["field:*", "ghost.qmax"],
+                    ensures=[H("wf/queue-unbounded", "g('ghost.qmax') <= 0")], raises={}, check_wf=False)
+
+
 def units(world):
     out = []
     def add(name, ct):
@@ -139,6 +149,8 @@ def units(world):
         ct = ctf()
         ct.raises_only_id = "C18+C03/raises-only"
         add("", ct)
+    add("", init_contract(MT, TR))
+    add("", init_contract(MC, CL))
     add("", connect_contract())
     add("", disconnect_contract())
     add("", handle_incoming_contract())
